@@ -94,6 +94,11 @@ class Ctx:
         self.violations: list[dict] = []
         self._viol_per_key: dict[str, int] = {}
         self.viol_total = 0
+        self.viol_new = 0  # violations whose key is not a listed known finding: only these end a shard early
+        try:
+            self._known_keys = {f["key"] for f in load_known().get("findings", [])}
+        except Exception:  # noqa: BLE001
+            self._known_keys = set()
         self.samples: list[Any] = []
         self.inconclusive: list[str] = []
         self.notes: dict[str, Any] = {}
@@ -120,6 +125,8 @@ class Ctx:
 
     def violation(self, key: str, what: str, witness: Any) -> None:
         self.viol_total += 1
+        if key not in self._known_keys:
+            self.viol_new += 1
         n = self._viol_per_key.get(key, 0)
         self._viol_per_key[key] = n + 1
         if n < MAX_VIOL_PER_KEY:
@@ -127,7 +134,7 @@ class Ctx:
 
     def should_stop(self, cap: int = 200) -> bool:
         """stop a shard early: enough violations were recorded, or the CPU guard tripped 3 times (each costs its budget)"""
-        return self.viol_total > cap or HANGS >= 3
+        return self.viol_new > cap or HANGS >= 3
 
     def inconclusive_because(self, reason: str) -> None:
         if len(self.inconclusive) < 20:
